@@ -54,7 +54,7 @@ func runRtRefuseProfile(seed uint64, cases int, out func(cmd, obs J), stats stri
 		refusals := 1 + r.intn(2)
 		cmd := J{"k": "rtcase", "id": c, "profile": "rtrefuse", "dt": typ, "n": 2, "ops": before, "mode": mode, "refusals": refusals}
 		obs := J{}
-		guarded(obs, func() {
+		guardedFor(obs, 30*time.Second, func() {
 			_, _, _ = w.stepMkCol("cola")
 			lis, err := net.Listen("tcp", "127.0.0.1:0")
 			if err != nil {
